@@ -73,11 +73,13 @@ CLAIMED = {
             'that equalities are reported exactly when entailed, order independence and checker acceptance of explanations are properties of '
             'run-time union-find states and are not decided'),
     'C18': ('veriT step evaluators: truncating comparisons, premise hypotheses, no unconditional acceptance',
-            'family-wide AST/CFG rules over the 85 evaluators and their helpers in smt/veriT (code no baseline test can import)',
+            'family-wide AST/CFG rules over the 85 evaluators and their helpers in smt/veriT (code no baseline test can import); abstract '
+            'evaluation of the pattern-checking evaluators over connective patterns, decided by finite truth / small-integer tables',
             'Decides for every evaluation-side function of smt/veriT that a pairwise comparison over zip() deciding acceptance has '
             'a length agreement on every path (R1), that every constructed result carries the hypotheses of the premises read '
             '(R2), and that no evaluator hands back a clause from its arguments on a path without test or rejecting helper (R3).',
-            'logical validity of each Alethe rule shape is not decided'),
+            'logical validity is decided (R19, R20) only for the accept sites whose conditions are tests of connectives / arithmetic operators and '
+            'comparisons of parts - 86 of 154; la_generic, resolution, congruence, quantifier instantiation and the numeric simplifications are not'),
     'C05': ('type pinning, shape guards, exact arithmetic and zero-divisor tests of the trusted arithmetic evaluators',
             'interprocedural must-pass-through guards (call-site type pinning followed through wrappers and function-valued '
             'arguments), call-graph taint for inexact arithmetic with a sanitiser for exactness assertions, dominance rule for divisors',
@@ -220,6 +222,28 @@ ADDED2 = {'C01': "After rounds 2 and 3: the substitution rule puts only closed t
     'C20': 'And: substitution on program expressions rebuilds the same node over all substituted parts (P4).'}
 
 
+# rules added after round 4 of seeded changes and the second pass over the reported defects (DESIGN.md 4g, 4h)
+ADDED3 = {
+    'C01': 'And: every recursion through an abstraction passes depth + 1, through a combination the depth unchanged (K14); the scoping predicate and the identifier-equals-position discipline of the checker (K15).',
+    'C02': 'And: items are checked at the position their identifier names, per block (P11); checked_extend installs a theorem only after its own proof was checked, also through helpers (P4).',
+    'C03': 'And: the de Bruijn depth discipline of every depth-carrying recursion over terms (I7).',
+    'C04': 'And: the expansion reads every argument component the reported result depends on and the premises do not determine (M12); the stated theorems of the library in the decidable fragment hold in every row of their small-domain table (M13, about 780 statements).',
+    'C06': 'And: after two locals were swapped, the expressions they were bound from are not read again (Z6); every case of fologic.simplify1 / simplify / nnf returns a term with the truth table of the case it matched (Z7).',
+    'C09': 'And: the test for bound variables that escape the pattern arguments dominates the abstraction branch (N8).',
+    'C10': 'And: the clean-up rewrite after normalising one argument is the theorem for that side, read from the library (V8).',
+    'C11': 'And: the side conditions on the variables of a defining equation: subset test with types, no schematic variables (D7).',
+    'C12': 'And: a cached theory is reused only when the recorded timestamp equals the current one (L9).',
+    'C13': 'And: after find_goal, citations are redirected to the line it returned (A9); renumbering moves the ids of every depth (A10).',
+    'C14': 'And: renumbering after an insertion or deletion moves the ids of every depth below the changed position (S6).',
+    'C15': 'And: clauses whose length decides backtracking are free of repeated literals (X7); the working clause list is a position-preserving image of the argument and append-only (X8).',
+    'C16': 'And: after every asserted bound the tableau is checked before the next assertion or the result (O4).',
+    'C17': 'And: explanation requests are answered for identical terms (G5); stale-after-swap (G6); re-rooting the proof forest reverses every edge of the path (G7).',
+    'C18': 'And: stale-after-swap (R13); factors and summands are never compared as sets (R14); parallel walkers test both heads (R15); loops over the pairs of a mapping read both components (R16); per-element found-flags are reset per element and the element loop is not left early (R17); variables of stripped quantifiers are examined (R18); for 86 of the 154 accept sites of the rule evaluators the accepted clause is a consequence of the premises in every row of the truth / small-integer table of the parts the tests leave open (R19, sa/propeval.py); every case of get_cnf keeps the truth table (R20).',
+    'C19': 'And: a sum of growing terms takes the greater asymptote, a sum of decaying terms the smaller one (E6, selection tables over the four comparison outcomes).',
+    'C20': 'And: the negation used for the exit condition of a loop negates: the node ~e or the dual connective over negated parts (P5).',
+}
+
+
 def main():
     checks = []
     for pid in sorted(CLAIMED):
@@ -228,6 +252,8 @@ def main():
             text = text + ' ' + ADDED[pid]
         if pid in ADDED2:
             text = text + ' ' + ADDED2[pid]
+        if pid in ADDED3:
+            text = text + ' ' + ADDED3[pid]
         checks.append({
             'property_id': pid,
             'quick_cmd': './check %s --tier quick' % pid,
@@ -250,7 +276,8 @@ def main():
                   'source_commits': [], 'add_only': True},
         'engines': [{'name': 'sa', 'path': 'sa/', 'serves_properties': sorted(CLAIMED),
                      'kind_free_text': 'repository-specific static analyser: ast module index, statement CFG with short-circuit tests, '
-                                       'local def-use closure, import/call graph, literal tables, grammar ladder'}],
+                                       'local def-use closure, import/call graph, literal tables, grammar ladder, abstract evaluation of '
+                                       'pattern-checking functions over connective patterns with finite truth / small-integer tables'}],
         'checks': checks,
         'not_applicable': [{'property_id': k, 'reason': v} for k, v in sorted(na.items())],
         'notes': 'All checks: exit 0 = rules hold (known findings printed as KNOWN-FINDING), 1 = VIOLATION, 2 = ANALYSIS-ERROR '
